@@ -4,3 +4,4 @@ import LpModel.C20.IO
 import LpModel.C20.Time
 import LpModel.C20.Text
 import LpModel.C20.Chunk
+import LpModel.C20.Ragged
